@@ -94,6 +94,18 @@ def translate(repo):
     C["LOCK_FIELD_DROPPED_LAST"] = 1 if names and names[-1] == "_lock" and "guards" in names and "verifiers" in names and names.index("guards") < names.index("verifiers") else 0
     nw = body_of(inj, "pub fn new() -> Self")
     C["NEW_TAKES_THE_LOCK"] = 1 if re.search(r"let (\w+) = LOCK_FUNCTION\.lock\(\);", nw) and re.search(r"_lock: \w+,", nw) else 0
+    # process-wide state: the model has exactly two kinds — the guard (LOCK_FUNCTION) and one call counter per fake! call site.  Any other
+    # `static` / thread_local / once-cell in the library (a pool, a table, a cache, a remembered address) is state the model does not have
+    def code(path): return re.sub(r"//[^\n]*", "", open(path).read())
+    import glob as _g
+    core = [p for p in sorted(_g.glob(os.path.join(repo, "src", "**", "*.rs"), recursive=True)) if not p.endswith(os.path.join("interface", "macros.rs"))]
+    statics = [m for p in core for m in re.findall(r"^\s*(?:pub(?:\([a-z]+\))? )?static\s+(?:mut\s+)?(\w+)", code(p), re.M)]
+    cells = sum(len(re.findall(r"\b(?:thread_local!|lazy_static!|OnceLock|OnceCell|LazyLock|LazyCell|once_cell)\b", code(p))) for p in core)
+    C["PROCESS_WIDE_STATE_IS_THE_GUARD_ONLY"] = 1 if statics == ["LOCK_FUNCTION"] and cells == 0 else 0
+    mac = code(os.path.join(repo, "src", "interface", "macros.rs"))
+    mst = re.findall(r"\bstatic\s+(?:mut\s+)?(\w+)\s*:\s*([^=;]+)", mac)
+    mcells = len(re.findall(r"\b(?:thread_local!|lazy_static!|OnceLock|OnceCell|LazyLock|LazyCell|once_cell)\b", mac))
+    C["MACRO_STATICS_ARE_THE_CALL_COUNTERS"] = 1 if mst and all(n == "FAKE_COUNTER" and t.strip() == "AtomicUsize" for n, t in mst) and mcells == 0 and not re.search(r"^\s*const\s+\w+\s*:", mac, re.M) else 0
     return C
 
 def to_coq(C):
